@@ -266,6 +266,8 @@ def run(ctx):
     for m in repo.mod(MT).cls("MidiTrack").methods.values():
         ctx.touch(m)
     rule_stream(ctx)
+    rule_refused_bar(ctx)
+    rule_tick_ties(ctx)
     rule_repeat(ctx)
     rule_constants(ctx)
     rule_header_body(ctx)
@@ -326,6 +328,98 @@ def rule_stream(ctx, R="R-C16-3"):
             elif diff:
                 ok, why = False, diff
         ctx.check(ok, R, "stream[%s]" % label, fi.where(), "MidiTrack.play_Track(<%s>)" % label, why)
+
+
+def rule_refused_bar(ctx, R="R-C16-3"):
+    """A MidiTrack driven by hand: a bar that is refused (a time signature count that does not fit) leaves the track as
+    it was -- the rest pending before it still delays the next bar's first note."""
+    from ..engine.absint import RaiseEx
+    repo = ctx.repo
+    mtci, barci, keyci = repo.mod(MT).cls("MidiTrack"), repo.mod(BAR).cls("Bar"), repo.mod(KEYS).cls("Key")
+    fi = repo.find_method(mtci, "play_Bar")
+    summ = md.varbyte_summary(repo)
+    summ[NOTE + ".Note.__int__"] = lambda it, a, k, n: a[0].attrs["pitch"]
+    sc = Scenario([["N1", "R"], ["N1"]], None)
+
+    def go(it):
+        md.install(it)
+        track, desc = build(repo, sc)
+        mt = AObj(mtci, {"delta_time": md.Delta(b"\x00")}, name="miditrack")
+        it.call_function(repo.find_method(mtci, "__init__"), [mt, 120], {})
+        bars = track.attrs["bars"]
+        it.call_function(fi, [mt, bars[0]], {})
+        key = AObj(keyci, {"key": "C", "mode": "major", "name": "display name", "signature": None}, name="key")
+        try:
+            it.call_function(fi, [mt, AObj(barci, {"bar": [], "meter": (256, 4), "key": key}, name="refused")], {})
+            refused = None
+        except RaiseEx as r:
+            refused = r.exc
+        it.call_function(fi, [mt, bars[1]], {})
+        return mt, desc, refused
+    try:
+        paths = explore(lambda ch: Interp(repo, ch, summaries=summ, max_depth=30), go)
+    except CannotDecide as e:
+        raise AnalysisError("hand-driven MidiTrack with a refused bar: %s" % e)
+    ok, why = len(paths) == 1 and paths[0].kind == "return", "outcome %s" % [(p.kind, short(repr(p.value), 60)) for p in paths][:2]
+    if ok:
+        it = paths[0].interp
+        mt, desc, refused = paths[0].value
+        ticks = it.__dict__.get("tick_syms", {})
+
+        def tickof(v):
+            for sym, rf in ticks.values():
+                if rf is not None and rf.same(RatFun(RatFun.of(288).num * v.den, v.num)):
+                    return Lin.of(sym)
+            return Lin.of(Sym("unrounded(%r)" % (v,), 0, INF))
+        if refused is None:
+            ok, why = False, "a bar in 256/4 is not refused"
+        else:
+            try:
+                got = [e for e in decode(it, mt.attrs.get("track_data"), None)]
+                want = [e for e in expected_events(sc, desc, tickof) if e[1] != "name"]
+                diff = compare_streams(it, got, want, ticks)
+            except ValueError as e:
+                diff = str(e)
+            if diff:
+                ok, why = False, "after a refused bar (%s) the track differs from the two bars that were accepted: %s" % (refused, diff)
+    ctx.check(ok, R, "refused-bar", fi.where(), "MidiTrack: play_Bar(<note, rest>), play_Bar(<bar in 256/4>) refused, play_Bar(<note>)", why)
+
+
+def rule_tick_ties(ctx, R="R-C16-3"):
+    """round(288 / value), also where 288 / value lies exactly half way between two ticks (tuplets such as 64 * 3 / 17):
+    evaluated in floats on the real play_Bar."""
+    repo = ctx.repo
+    mtci, barci, keyci, nci, noteci = (repo.mod(MT).cls("MidiTrack"), repo.mod(BAR).cls("Bar"), repo.mod(KEYS).cls("Key"), repo.mod(NC).cls("NoteContainer"), repo.mod(NOTE).cls("Note"))
+    fi = repo.find_method(mtci, "play_Bar")
+    summ = md.varbyte_summary(repo)
+    summ[NOTE + ".Note.__int__"] = lambda it, a, k, n: a[0].attrs["pitch"]
+    for label, v in (("64 * 3 / 17", 64 * 3 / 17.0), ("64 * 3 / 19", 64 * 3 / 19.0), ("576 / 11", 576 / 11.0), ("quarter", 4), ("triplet eighth", 12.0), ("dotted quarter", 4 / 1.5)):
+        def go(it, v=v):
+            md.install(it)
+            n = AObj(noteci, {"channel": 1, "velocity": 64, "pitch": 60, "name": "C", "octave": 5}, name="n")
+            cont = AObj(nci, {"notes": [n]}, name="cont")
+            key = AObj(keyci, {"key": "C", "mode": "major", "name": "display name", "signature": None}, name="key")
+            bar = AObj(barci, {"bar": [[0.0, v, cont]], "meter": (4, 4), "key": key}, name="bar")
+            mt = AObj(mtci, {"delta_time": md.Delta(b"\x00")}, name="miditrack")
+            it.call_function(repo.find_method(mtci, "__init__"), [mt, 120], {})
+            it.call_function(fi, [mt, bar], {})
+            return mt
+        try:
+            paths = explore(lambda ch: Interp(repo, ch, summaries=summ, max_depth=30), go)
+        except CannotDecide as e:
+            raise AnalysisError("play_Bar with the value %s: %s" % (label, e))
+        ok, why = len(paths) == 1 and paths[0].kind == "return", "outcome %s" % [(p.kind, short(repr(p.value), 60)) for p in paths][:2]
+        if ok:
+            it = paths[0].interp
+            try:
+                got = decode(it, paths[0].value.attrs.get("track_data"), None)
+                offs = [it.lin_interval(Lin.of(t)) for t, k, d in got if k == "off"]
+            except ValueError as e:
+                offs, why = None, str(e)
+            want = int(round(288 / v))
+            if not offs or offs[0] != (want, want):
+                ok, why = False, "a note of value %s (%r) ends at tick %s; 288 / value = %r, so round(288 / value) = %d" % (label, v, offs, 288 / v, want)
+        ctx.check(ok, R, "tick[%s]" % label, fi.where(), "MidiTrack.play_Bar(<one note of value %s>)" % label, why)
 
 
 def rule_repeat(ctx):
